@@ -202,9 +202,11 @@ def scenario(mode, selected, cut, ending):
             outcome = []
             threading.Thread(target=lambda: outcome.append(ep.proto.send_message(big)), daemon=True).start()
             time.sleep(1.0)
-            ok, _ = with_timeout(ep.proto.disable, 8.0)
+            # (the writer may be busy formatting a 1 MiB packet for the debug log - about 0.7 s, more under load - when the
+            # connection is closed: a generous limit, a wedged writer never comes back at all)
+            ok, _ = with_timeout(ep.proto.disable, 20.0)
             if not ok:
-                bad["disable-returns"] = f"disable() did not return within 8 s while the peer does not read (state {ep.state()})"
+                bad["disable-returns"] = f"disable() did not return within 20 s while the peer does not read (state {ep.state()})"
             elif outcome == [True]:
                 bad["send-reports-failure"] = "a 24 MiB message the peer never read was reported as sent"
             elif not H.wait_until(lambda: ep.state() == "NOT_CONNECTED", 4.0):
